@@ -36,6 +36,7 @@ def ref_of_list(fmts):
 def task_date(fmts, ext, label):
     fl = documented_formats() if fmts is None else list(fmts)
     src = "Date(%r, is_extensible=%r)" % (fmts if fmts is None or len(fmts) > 1 else fmts[0], ext)
+    common.note_construction(src)
     name = "date %s %s" % (label, src if len(src) < 90 else src[:90] + "...")
     t0 = time.time()
     try:
